@@ -74,7 +74,20 @@ def cases(draw, tier):
         spec["samp_md"] = [{"k": "sv%d" % i, "n": i % 3}
                            for i in range(len(spec["samp"]))] \
             if pat in ("both", "samp-only") else None
-    return {"table": spec, "op": draw(OPS)}
+    op = draw(OPS)
+    if op["kind"] == "sort" and op["f"] in ("default", "sorted") and \
+            draw(st.booleans()):
+        # IDs that already sit in plain text order (or its reverse), which
+        # is not natural order: "already sorted" shortcuts
+        key = "obs" if op["axis"] == "observation" else "samp"
+        n = len(spec[key])
+        pool = ["S1", "S10", "S11", "S2", "S9", "x10.5", "x9", "s1", "S",
+                "S1a", "S01", "S010", "t2", "t10"]
+        pick = list(draw(st.permutations(pool)))[:n]
+        pick += ["u%d" % i for i in range(n - len(pick))]
+        spec[key] = sorted(pick, reverse=draw(st.booleans()))
+        spec["history"] = []
+    return {"table": spec, "op": op}
 
 
 def strategy(tier):
